@@ -60,6 +60,10 @@ def make_dataset(rng, **o):
                   time_dtype=rng.choice(['uint64', 'int64']), alf_samples=True)
     ds['sem'] = {k: sem[k] for k in ('n_channels', 'n_channels_dat', 'n_templates', 'n_samples_wf', 'n_spikes',
                                      'channel_map', 'rate', 'spike_samples', 'spike_templates', 'spike_clusters')}
+    if o.get('n_closest'):
+        # params.py line `n_closest_channels = k` (TemplateModel(**params) puts it on the instance; the class default
+        # is 12): the subset store is then max(max_n_channels or k, k) columns wide -- one column for k = 1
+        ds['n_closest'] = int(o['n_closest'])
     return ds
 
 
